@@ -140,6 +140,8 @@ def source(cfg):
 
 
 def cases(tier):
+    for i in range(len(HELPER_EXPRS)):
+        yield {'helper': i}
     maxdev = 3 if tier == 'quick' else 4
     seen = set()
     # all modifier subsets
@@ -237,8 +239,64 @@ def atom_names(atoms):
                     for a in atoms)
 
 
+HELPER_EXPRS = [
+    'sw.capwords(x)', 'sw.capwords(s=x)', "sw.capwords(x, ' ')",
+    "sw.capwords(s=x, sep=' ')", "sw.capwords('a b', x)",
+    "sw.capwords('a<b', sep=x)", 'fcat(x, x)', "fcat(x, b='q')",
+    "fcat(a='q', b=x)", "fcat('q', b=x)", 'fcat(a=x, b=x)', 'fid(x)',
+    'fid(s=x)', 'fcat(fid(s=x), fid(x))', "fcat(sw.capwords(s=x), 'z')",
+]
+HELPER_OPTS = ['', ' html_quote', ' upper', ' size=4', ' url_unquote']
+
+
+def run_helper(res, case):
+    """tainted values handed to the wrapped string helpers (the `string`
+    module wrapper and wrappers of plain functions), positionally and by
+    keyword: the result is inserted escaped, once"""
+    from AccessControl.tainted import TaintedString
+    from DocumentTemplate import HTML
+    from DocumentTemplate.DT_Util import StringFunctionWrapper
+    from DocumentTemplate.DT_Util import StringModuleWrapper
+    expr = HELPER_EXPRS[case['helper']]
+    ns = {'sw': StringModuleWrapper(),
+          'fcat': StringFunctionWrapper(lambda a, b='': a + '|' + b),
+          'fid': StringFunctionWrapper(lambda s: s[:])}
+    n = nt = 0
+    for opt in HELPER_OPTS:
+        src = '<dtml-var "%s"%s>' % (expr, opt)
+        t = HTML(src)
+        for v in VALUES:
+            ctl = t(x=control_value(v), **ns)
+            try:
+                out = t(x=TaintedString(v), **ns)
+            except Exception as e:
+                res.count('helper:exception:' + type(e).__name__)
+                continue
+            n += 1
+            nt += 1
+            why = None
+            if out.count('<') > ctl.count('<'):
+                why = 'raw'
+            elif '&amp;lt;' in out:
+                why = 'double'
+            if why:
+                res.violate('no-raw-lt' if why == 'raw' else 'escaped-once',
+                            'leak:%s:helper:%s%s' % (
+                                why, 'keyword' if '=x' in expr else
+                                'positional', opt.replace(' ', ':')),
+                            {'source': src, 'value': v, 'output': out},
+                            {'helper': case['helper'], 'value': v})
+                break
+    res.evals = n
+    res.nt_count = nt
+    res.outcome = 'helper'
+    return res
+
+
 def run(case):
     res = Res()
+    if 'helper' in case:
+        return run_helper(res, case)
     atoms = [tuple(a) for a in case['atoms']]
     cfg = config(atoms)
     cs = source(cfg)
